@@ -12,12 +12,12 @@ TRUSTED_EXTRA = ["Model/Num.v, Model/Real32.v model src/values.rs (Number, upcas
 
 
 def explore(ctx):
-    nrandom = 20000 if ctx.quick else 1000000
+    nrandom = 60000 if ctx.quick else 1000000
     lines = numgrid.num_cases(ctx.rng, nrandom)
     m, i, dis = common.differential(lines)
     bad = common.diff_report(ctx, lines, m, i, dis)
     # the n-ary builtins through the evaluator: folds and comparison chains over 3-5 operands
-    ncases, ntests = numgrid.nary_cases(ctx.rng, 3000 if ctx.quick else 200000)
+    ncases, ntests = numgrid.nary_cases(ctx.rng, 10000 if ctx.quick else 200000)
     nres, nndis = common.run_cases(ctx, ncases)
     nbad = numgrid.nary_oracle(ntests, nres)
     for t, msg in nbad[:5]:
@@ -36,7 +36,7 @@ def explore(ctx):
         "rule": "complete grid (%d numbers: boundary integers, reduced/unreduced ratios of both signs, binary32 classes) "
                 "for every unary and binary Number operation through the public Rust API, plus %d seeded random cases; "
                 "plus n-ary calls of + - * / max min = < <= > >= on 3-5 operands (grid and random numbers, unreduced ratios bound through "
-                "the API, nearly sorted tuples with equal neighbours) through the evaluator, compared model vs implementation and "
+                "the API, nearly sorted tuples with equal neighbours, tuples drawn from clusters of distinct numbers that only the conversion to binary32 identifies - 2^24 / 2^24+1 / 16777216.0 and the like -) through the evaluator, compared model vs implementation and "
                 "against the implementation's own left-nested binary spelling (folds) / adjacent pairs (chains); "
                 "non-trivial = not an error and some operand outside {-1,0,1}; model and implementation compared on "
                 "variant, components and binary32 bit pattern" % (len(numgrid.grid()), nrandom),
